@@ -38,6 +38,8 @@ TOUR = [
     'CLS\r\nLOCATE 2, 3\r\nCOLOR 7, 0\r\nWIDTH 80, 25\r\nVIEW PRINT 1 TO 10\r\nVIEW PRINT\r\nDIM V%\r\nDEF SEG = VARSEG(V%)\r\nPOKE VARPTR(V%), 2\r\nPRINT PEEK(VARPTR(V%))\r\nDEF SEG\r\nPRINT VARPTR(V%) >= 0; VARSEG(V%) >= 0\r\nENVIRON "A=B"\r\n',
     # REDIM, nested calls, recursion
     'REDIM A(3)\r\nA(3) = 1\r\nREDIM A(5)\r\nPRINT A(3); Fact&(5)\r\nFUNCTION Fact& (N%)\r\n  IF N% <= 1 THEN\r\n    Fact& = 1\r\n  ELSE\r\n    Fact& = N% * Fact&(N% - 1)\r\n  END IF\r\nEND FUNCTION\r\n',
+    # long string literals, hexadecimal and octal literals
+    'PRINT "' + "abcdefghij" * 5 + '"\r\nA$ = "' + "x" * 60 + '"\r\nPRINT LEN(A$); &HFF; &HABCD; &H7FFFFFFF; &O777; &HFFFF\r\n',
     # names with dots, long names, suffixes
     'my.var = 1\r\nmy.var$ = "s"\r\nLongVariableName123% = 4\r\nx! = 1\r\nx# = 2\r\nx& = 3\r\nPRINT my.var; my.var$; LongVariableName123%; x!; x#; x&\r\n',
     # statements in their shortest form, the last thing on their line
@@ -49,3 +51,17 @@ TOUR = [
 ]
 
 TOUR_STDIN = "4\r\n5, text\r\na whole line, with comma\r\n"
+
+# Accepted programs with unusual control flow: whatever they do, it must be a BASIC-level outcome (C08)
+ODD = [
+    'GOTO Inside\r\nFOR I = 1 TO 2\r\nInside:\r\nPRINT I\r\nNEXT\r\n',
+    'GOTO Inside\r\nWHILE X < 2\r\nInside:\r\nX = X + 1\r\nWEND\r\nPRINT X\r\n',
+    'GOSUB Inside\r\nEND\r\nFOR I = 1 TO 2\r\nInside:\r\nPRINT I\r\nNEXT\r\nRETURN\r\n',
+    'FOR I = 1 TO 2\r\nGOSUB R\r\nNEXT\r\nEND\r\nR:\r\nFOR J = 1 TO 2\r\nRETURN\r\nNEXT\r\n',
+    'GOTO Inside\r\nSELECT CASE 1\r\nCASE 1\r\nInside:\r\nPRINT "in"\r\nEND SELECT\r\n',
+    'GOTO Inside\r\nDO\r\nInside:\r\nX = X + 1\r\nLOOP UNTIL X > 2\r\nPRINT X\r\n',
+    'P\r\nPRINT "m"\r\nSUB P\r\nGOTO Inside\r\nFOR I = 1 TO 2\r\nInside:\r\nNEXT\r\nEND SUB\r\n',
+    'ON ERROR GOTO H\r\nFOR I = 1 TO 3\r\nX = 1 / 0\r\nNEXT\r\nEND\r\nH:\r\nRESUME Out1\r\nOut1:\r\nPRINT "out"\r\nFOR K = 1 TO 2\r\nNEXT\r\n',
+    'RETURN\r\n', 'RESUME\r\n', 'RESUME NEXT\r\n', 'FOR I = 1 TO 2\r\nFOR I = 1 TO 2\r\nNEXT\r\nNEXT\r\n',
+    'X = F%(3)\r\nPRINT X\r\nFUNCTION F%(N%)\r\nIF N% > 0 THEN F% = F%(N% - 1) + 1\r\nEND FUNCTION\r\n',
+]
